@@ -174,3 +174,4 @@ def ctx_for(rep, label, path, gname, decl, native=None, seed=0, exact_valid=True
                 c.alg.add_relation(sum((x * x for x in v), c.alg.R.zero) - 1)
     c.spec = sp
     return c
+from . import taylor as _taylor   # noqa: installs engine.vc.ASSUMPTION_PROVER
